@@ -79,6 +79,11 @@ func reencodings(tx []byte) []encoding {
 			cp := *st
 			cp.Signatures = append(append([]action.Signature{}, st.Signatures...), st.Signatures[0])
 			out = append(out, encoding{"surplus-signature-copy", cp.SignedBytes()})
+			// bytes appended to the first signature (what a device's status word would look like)
+			cp3 := *st
+			cp3.Signatures = append([]action.Signature{}, st.Signatures...)
+			cp3.Signatures[0].Signed = append(append([]byte{}, st.Signatures[0].Signed...), 0x90, 0x00)
+			out = append(out, encoding{"signature-bytes-appended", cp3.SignedBytes()})
 			if extraSigner != nil {
 				if h, err := extraSigner.Priv.GetHandler(); err == nil {
 					if sig, err := h.Sign(st.RawTx.RawBytes()); err == nil {
@@ -166,7 +171,9 @@ func sameSignedContent(a, b []byte) bool {
 		return false
 	}
 	for i := range sa.Signatures {
-		if !bytes.Equal(sa.Signatures[i].Signed, sb.Signatures[i].Signed) || !sa.Signatures[i].Signer.Equal(sb.Signatures[i].Signer) {
+		// (the original signature bytes, possibly followed by more: whether that still passes the signature
+		// check is the node's business; if it does, it is the same signed transaction once more)
+		if !bytes.HasPrefix(sb.Signatures[i].Signed, sa.Signatures[i].Signed) || !sa.Signatures[i].Signer.Equal(sb.Signatures[i].Signer) {
 			return false
 		}
 	}
@@ -366,6 +373,12 @@ func checkC05(tier string) int {
 			tx := txb.Tx(txb.Send(u.Addr, wm.w.Users[1].Addr, "OLT", fmt.Sprint(4000+wm.h)), txb.DefaultFee(), "", u)
 			bases = append(bases, hist.TxSpec{Kind: "SEND", Bytes: tx, Note: "transfer with an empty memo", Signers: []string{u.Addr.String()}})
 		}
+		// a transfer signed the hardware-wallet way (ed25519 signature over a digest, prefixed with its name)
+		{
+			u := wm.w.Users[0]
+			tx := txb.TxPreHash(txb.Send(u.Addr, wm.w.Users[1].Addr, "OLT", fmt.Sprint(4100+wm.h)), txb.DefaultFee(), fmt.Sprintf("c05-prehash-%d", wm.h), "SHA256", u)
+			bases = append(bases, hist.TxSpec{Kind: "SEND", Bytes: tx, Note: "transfer signed over a SHA256 digest (hardware wallet form)", Signers: []string{u.Addr.String()}})
+		}
 		// an EVM account that spends itself down to exactly zero, is funded again by somebody else, and then
 		// sees its old transaction resubmitted with an unsigned payload field changed
 		between := map[int][][]byte{}
@@ -405,6 +418,21 @@ func checkC05(tier string) int {
 			c05Pre.Store(string(tx), [][]byte{fund})
 			bases = append(bases, hist.TxSpec{Kind: "OLVM", Bytes: tx, Note: note, Signers: []string{fresh.Addr.String()}})
 		}
+		// a message call that fails inside the VM (INVALID burns all gas; REVERT leaves some): the call is
+		// executed, charged, and the sender's sequence moves on
+		for k, runtime := range [][]byte{{0xfe}, {0x60, 0x00, 0x60, 0x00, 0xfd}} {
+			key := ethcrypto.Keccak256([]byte(fmt.Sprintf("c05-callfail-%d-%d-%d", wm.seed, wm.h, k)))
+			fresh := world.AccountFromEthSecp(fmt.Sprintf("c05-callfail-%d-%d", wm.h, k), key)
+			u := wm.w.Users[0]
+			fund := txb.Tx(txb.Send(u.Addr, fresh.Addr, "OLT", "3000000000000000000"), txb.DefaultFee(), fmt.Sprintf("c05-fund-callfail-%d-%d", wm.h, k), u)
+			n := byte(len(runtime))
+			init := append([]byte{0x60, n, 0x60, 12, 0x60, 0, 0x39, 0x60, n, 0x60, 0, 0xf3}, runtime...)
+			deploy := gen.OLVMTx(&gen.Ctx{W: wm.w}, &fresh, key, 0, nil, big.NewInt(0), init, 200000, "1000000000", gen.ChainIDOf(wm.w), "0")
+			target := ethcrypto.CreateAddress(ethcmn.BytesToAddress(fresh.Addr), 0)
+			tx := gen.OLVMTx(&gen.Ctx{W: wm.w}, &fresh, key, 1, &target, big.NewInt(int64(k)*5), nil, 60000, "1000000000", gen.ChainIDOf(wm.w), "1")
+			c05Pre.Store(string(tx), [][]byte{fund, deploy})
+			bases = append(bases, hist.TxSpec{Kind: "OLVM", Bytes: tx, Note: []string{"EVM call into code that is the INVALID instruction", "EVM call with a value into code that reverts"}[k], Signers: []string{fresh.Addr.String()}})
+		}
 		parallel(len(bases), 14, func(bi int) {
 			b := bases[bi]
 			// twins: base executed, then (gap+1) empty blocks
@@ -433,7 +461,7 @@ func checkC05(tier string) int {
 				tw := wm.replayProbeCrash(b.Bytes, nil, v.gap, v.restart, v.crash, between[bi]...)
 				if tw.err != nil || tw.died || !tw.baseOK {
 					r.Count("bases_not_executable", 1)
-					if (between[bi] != nil && wm.w.P.Frankenstein != 0) || b.Note == "transfer with an empty memo" {
+					if (between[bi] != nil && wm.w.P.Frankenstein != 0) || b.Note == "transfer with an empty memo" || strings.HasPrefix(b.Note, "transfer signed over") {
 						r.Inconclusive(fmt.Sprintf("directed base %q did not execute on the fork (err=%v died=%v log=%s)", b.Note, tw.err, tw.died, cut(tw.baseLog, 200)))
 					}
 					return
